@@ -82,6 +82,8 @@ pub struct IrEmitter<'a> {
     ///
     /// Used to disambiguate crate-internal module imports vs external crate imports when emitting `use` paths.
     internal_module_roots: HashSet<String>,
+    /// Test mode: name of the function to emit as a Rust `#[test]` (set by `incan test`)
+    test_function: Option<String>,
 }
 
 impl<'a> IrEmitter<'a> {
@@ -108,6 +110,7 @@ impl<'a> IrEmitter<'a> {
             const_string_literals: std::collections::HashMap::new(),
             routes: Vec::new(),
             internal_module_roots: HashSet::new(),
+            test_function: None,
         }
     }
 
@@ -178,6 +181,14 @@ impl<'a> IrEmitter<'a> {
     /// Set whether to emit the Zen of Incan in main.
     pub fn set_emit_zen(&mut self, emit: bool) {
         self.emit_zen_in_main = emit;
+    }
+
+    /// Test mode: mark the function with this name as a Rust `#[test]`.
+    ///
+    /// `incan test` builds one Cargo project per test function and derives the verdict from the exit
+    /// status of `cargo test`, so the generated harness must contain exactly the selected function as a test.
+    pub fn set_test_function(&mut self, name: Option<String>) {
+        self.test_function = name;
     }
 
     /// Set collected routes for web emission.
